@@ -57,6 +57,20 @@ func TestSweep(t *testing.T) {
 			}
 		}
 	}
+	// every boundary float (incl. the neighbours of MaxFloat32, subnormals, infinities, NaN) through the four float-to-float conversions
+	for _, e := range convtab.Select("FloatAsFloat") {
+		b := bFloat64
+		if e.S.Bits == 32 {
+			b = bFloat32
+		}
+		var vals []kit.Val
+		for _, f := range b {
+			vals = append(vals, kit.FV(f))
+		}
+		vals = append(vals, kit.FV(math.NaN()))
+		n := len(vals)
+		Oracle.One(t, env, rec, "sweep", &Case{S: e.S.Name, D: e.D.Name, C: 1, Src: Win{Kr: n, A: 0, B: n}, Dst: Win{Kr: n + 1, A: 0, B: n + 1, Fix: 1}, Vals: vals})
+	}
 	// one very long buffer pair per instantiation (block / parallel fast paths): a common prefix of
 	// 65536+k samples that is not a multiple of 4 or 8, destination longer than the source
 	huge := convtab.Entries
@@ -71,8 +85,10 @@ func TestSweep(t *testing.T) {
 		}
 	}
 	for i, e := range huge {
-		C := 1 + i%3
-		n := (65536 + 3*C + 1 + i%5) / C
+		C, n := 1, 65537+i%3 // common prefixes 65537, 65538, 65539: not multiples of 4
+		if i%4 == 3 {
+			C, n = 3, 21847 // 65541 samples
+		}
 		var vals []kit.Val
 		if e.S.Kind == kit.Float {
 			vals = []kit.Val{kit.FV(0.5), kit.FV(-0.25), kit.FV(0.125), kit.FV(-1), kit.FV(0.75)}
